@@ -179,7 +179,7 @@ pub enum Tok {
 }
 
 impl Tok {
-    fn bytes(&self) -> Vec<u8> {
+    pub fn bytes(&self) -> Vec<u8> {
         match self {
             Tok::Lit(c) => c.to_string().into_bytes(),
             Tok::Hex(b, _) => vec![*b],
@@ -195,7 +195,7 @@ impl Tok {
             }],
         }
     }
-    fn render(&self) -> String {
+    pub fn render(&self) -> String {
         match self {
             Tok::Lit(c) => c.to_string(),
             Tok::Hex(b, upper) => {
@@ -645,6 +645,14 @@ impl Ast {
         }
         Some(())
     }
+}
+
+pub fn regex_ast_strategy() -> BoxedStrategy<Ast> {
+    ast_strategy()
+}
+
+pub fn esc_tok_strategy() -> BoxedStrategy<Tok> {
+    tok_strategy()
 }
 
 fn ast_strategy() -> BoxedStrategy<Ast> {
